@@ -131,7 +131,10 @@ impl Monitor for C13 {
                 out.count("c13.removals_of_re_added_validator");
             }
             self.removed_once.insert(v.clone());
-            self.removed_now.insert(v.clone());
+            if c.res.ok() {
+                // (not for the lenient re-run of a removal that really failed)
+                self.removed_now.insert(v.clone());
+            }
         }
         if d0 > 0 && allowed {
             out.count(if manual { "c13.manual_redelegations_with_stake_moved" } else { "c13.removals_with_stake_redelegated" });
